@@ -370,6 +370,24 @@ Definition map_observe (compact : bool) (now : Z) (t : N) (key : bytes) (s : mst
 Definition spec_observe (compact : bool) (now : Z) (t : N) (key : bytes) (s : sstate) :=
   observe_with (spec_step compact now 0) t key s.
 
+(* ---------- the table key counter ([TableMetaType] meta:table, IncrTableKeyCount) ----------
+   The counter of a table is meant to be the number of keys stored in it: string values and collection
+   meta keys of every type, expired but not yet compacted ones included (a write that re-creates an
+   expired key leaves the counter alone, DEL of an expired string decrements it).  It is not a variable
+   of the models: the number is read off the state, and the harness compares it with GetTableKeyCount. *)
+Definition in_table (t key : bytes) : bool :=
+  match split_table key with Some (t', _) => bytes_eqb t t' | None => false end.
+Definition count_if {V} (p : V -> bool) (t : bytes) (m : list (bytes * V)) : Z :=
+  Z.of_nat (length (filter (fun kv => in_table t (fst kv) && p (snd kv)) m)).
+Definition map_table_count (t : bytes) (s : mstate) : Z :=
+  count_if (fun x : xr hcoll => exists_coll (x_r x)) t (m_hash s) + count_if (fun x : xr scoll => exists_coll (x_r x)) t (m_set s)
+  + count_if (fun x => live_z (x_r x)) t (m_zset s) + count_if (fun x => l_exists (x_r x)) t (m_list s)
+  + count_if (fun _ : kvrec => true) t (m_kv s).
+Definition spec_table_count (t : bytes) (s : sstate) : Z :=
+  count_if (fun x : xr shash => nonempty (x_r x)) t (s_hash s) + count_if (fun x : xr sset => nonempty (x_r x)) t (s_set s)
+  + count_if (fun x : xr szset => nonempty (x_r x)) t (s_zset s) + count_if (fun x : xr slist => nonempty (x_r x)) t (s_list s)
+  + count_if (fun _ : sval => true) t (s_kv s).
+
 (* ---------- running a whole sequence (used by the theorems) ---------- *)
 (* the read clock does not matter for the successor state; reads inside a sequence use `now` *)
 Definition map_run (compact : bool) (now : Z) (cs : list (Z * cmd)) (s : mstate) : mstate :=
